@@ -288,103 +288,6 @@ fn k02_enumerator_restart_per_enum() {
     core::mem::forget(ast);
 }
 
-// ---- integer literals -------------------------------------------------------------------------------------------
-fn pick(sel: u8) -> u8 {
-    // alphabet that spans the mechanism: prefixes (0, x, b), digits of each base (1, 9, a, f), the separator
-    match sel {
-        0 => b'0',
-        1 => b'1',
-        2 => b'9',
-        3 => b'a',
-        4 => b'b',
-        5 => b'f',
-        6 => b'x',
-        _ => b'_',
-    }
-}
-fn digit(c: u8) -> Option<u32> {
-    match c {
-        b'0' => Some(0),
-        b'1' => Some(1),
-        b'9' => Some(9),
-        b'a' => Some(10),
-        b'b' => Some(11),
-        b'f' => Some(15),
-        _ => None,
-    }
-}
-/// reference: drop underscores; "0b" / "0x" prefix selects base 2 / 16 (checked in that order, once), else base 10; every
-/// remaining character must be a digit of the base and there must be at least one. Returns None for an invalid literal.
-fn ref_integer(t: &[u8; 4]) -> Option<i128> {
-    let mut d = [0u8; 4];
-    let mut n = 0;
-    let mut i = 0;
-    while i < 4 {
-        if t[i] != b'_' {
-            d[n] = t[i];
-            n += 1;
-        }
-        i += 1;
-    }
-    let (start, base) = if n >= 2 && d[0] == b'0' && d[1] == b'b' {
-        (2, 2)
-    } else if n >= 2 && d[0] == b'0' && d[1] == b'x' {
-        (2, 16)
-    } else {
-        (0, 10)
-    };
-    if start >= n {
-        return None;
-    }
-    let mut v: i128 = 0;
-    let mut i = 0;
-    while i < 4 {
-        if i >= start && i < n {
-            match digit(d[i]) {
-                Some(x) if x < base => v = v * (base as i128) + x as i128,
-                _ => return None,
-            }
-        }
-        i += 1;
-    }
-    Some(v)
-}
-
-//@ prop: C02
-//@ family: K02-int
-//@ tier: quick
-//@ functions: parsers::slice::grammar::try_parse_integer (str::replace, starts_with, i128::from_str_radix)
-//@ inst: real Parser over an empty Ast; literal of exactly 4 characters
-//@ inputs: every 4-character string over the alphabet {0, 1, 9, a, b, f, x, _} (4096 strings: decimal, 0x../0b.. prefixes, hex digits that look like prefixes, underscores anywhere)
-//@ oracle: reference parser written from the language rule (underscores dropped, one base prefix, digits of that base): a valid literal yields its value and no diagnostic; an invalid one yields exactly one error diagnostic (and the dummy value 0); no panic
-//@ stubs: std::hash::RandomState::new, std::fmt::format
-//@ bound: unwind 7; 4 characters (values < 2^16: overflow of i128 is outside this harness)
-//@ timeout: 1500
-#[kani::proof]
-#[kani::unwind(7)]
-#[kani::stub(std::hash::RandomState::new, stub_random_state)]
-#[kani::stub(std::fmt::format, stub_format)]
-fn k02_integer_literal_4() {
-    let sel: [u8; 4] = kani::any();
-    kani::assume(sel[0] < 8 && sel[1] < 8 && sel[2] < 8 && sel[3] < 8);
-    let t = [pick(sel[0]), pick(sel[1]), pick(sel[2]), pick(sel[3])];
-    let s = unsafe { core::str::from_utf8_unchecked(&t) };
-    let mut ast = Ast::verif_empty();
-    let mut diagnostics = Diagnostics::new();
-    let mut parser = Parser::new("f", &mut ast, &mut diagnostics);
-    let out = try_parse_integer(&mut parser, s, sp());
-    let want = ref_integer(&t);
-    kani::cover!(t[0] == b'0' && t[1] == b'x' && t[2] == b'0' && t[3] == b'b', "hex literal whose digits look like a binary prefix (0x0b) reachable");
-    kani::cover!(t[0] == b'0' && t[1] == b'_' && t[2] == b'x' && t[3] == b'f', "underscore inside the prefix (0_xf) reachable");
-    kani::cover!(want.is_none() && t[0] == b'0' && t[1] == b'b' && t[2] == b'9', "binary literal with a decimal digit reachable");
-    kani::cover!(want == Some(1199), "decimal 1199 reachable");
-    match want {
-        Some(v) => assert!(out.value == v, "a valid literal yields the value written, in its base, underscores ignored"),
-        None => assert!(out.value == 0, "an invalid literal yields the dummy value"),
-    }
-    core::mem::forget(out);
-    drop(parser);
-    assert!(diagnostics.has_errors() == want.is_none(), "a literal is diagnosed exactly when it is not a valid integer literal");
-    core::mem::forget(diagnostics);
-    core::mem::forget(ast);
-}
+// (An integer-literal kernel - try_parse_integer on every 4-character string "0???" over {0,1,9,a,b,f,x,_} against a
+// reference parser - was built and dropped: str::replace building a String plus i128::from_str_radix made 1.35 M steps
+// and exhausted 24 GB in the solver.)
